@@ -114,6 +114,8 @@ public:
     usize requiredCapacity = size + oldSize;
     if(buffer && _capacity >= requiredCapacity)
     {
+      if(data >= bufferStart && data < bufferEnd)
+        data = buffer + size + (data - bufferStart); // data is part of this buffer: it moves with the content
       Memory::move(buffer + size, bufferStart, oldSize);
       Memory::copy(buffer, data, size);
       bufferStart = buffer;
